@@ -365,7 +365,7 @@ pub fn run(ctx: &Ctx) -> i32 {
         tier,
         seed: ctx.seed,
         level: "exploration",
-        rule: "scenario = RateLimitLayer(quota burst B in {1,2,5,20}, replenish interval tau in {2,10,50} ms, Block|ReturnError) around a service that timestamps every admission in the synchronous part of call(); phase 1: 1-32 concurrent callers over 1-5 peers saturate the limiter for 0.3 s (thorough 1.2 s) on a 4-worker runtime, oracle: the k-th admission of a peer at t_k satisfies k <= B + floor(((t_k - T_P)*1.001 + 1 ms)/tau) (window over-estimated, hence sound under scheduling delay), refusals are TooManyRequests with a parsable wait-nanos and never reach the service, Block never refuses; phase 2 (ReturnError): one sequential caller, every refusal's hint w satisfies 0 < w <= B*tau + 1 ms and a retry after sleeping w + 1 ms is admitted; a fresh peer gets its full burst while others are exhausted; distinct by (tau, B, mode, callers, refusals seen)".into(),
+        rule: "scenario = RateLimitLayer(quota burst B in {1,2,5,20}, replenish interval tau in {2,10,50} ms, Block|ReturnError) around a service that timestamps every admission in the synchronous part of call(); phase 1: 1-32 concurrent callers over 1-5 peers saturate the limiter for 0.3 s (thorough 1.2 s) on a 4-worker runtime, oracle: the k-th admission of a peer at t_k satisfies k <= B + floor(((t_k - T_P)*1.001 + 1 ms)/tau) (window over-estimated, hence sound under scheduling delay), refusals are TooManyRequests with a parsable wait-nanos and never reach the service, Block never refuses; phase 2 (ReturnError): one sequential caller, every refusal's hint w satisfies 0 < w <= B*tau + 1 ms and a retry after sleeping w + 1 ms is admitted; a fresh peer gets its full burst while others are exhausted; distinct by (tau, B, mode, callers, refusals seen) Per-identity: peers whose id differs from an exhausted peer's in a single byte (last, middle, ninth, second) must still get their own first burst.".into(),
         assumptions: vec!["decided against the wall clock (governor's quanta clock cannot be virtualised); under-admission is only caught by the fresh-peer and hint-validity clauses".into()],
         summary,
         extra: Default::default(),
